@@ -220,7 +220,7 @@ def check_text(backend_key, base, new, info, ep_names, spec, rep, files, kind, p
             files = dict(files)
             files["candidate_minimal_renaming.json"] = json.dumps(single, ensure_ascii=False)
         if db is None and bt[i][1] == name and cls == re.sub(r"\d+", "N", name):
-            cls = "target-builtin-name"      # a builtin of the target language that the writer emits and the table lacks
+            cls = "target-builtin-name:" + name      # a builtin of the target language that the writer emits and the table lacks
         rep.report("%s:clash:%s" % (b, cls),
                    what_prefix + "makes the identifier %r (token %d, baseline %r) resolve to %s instead of %s: "
                    "the reference no longer denotes the entity the author meant" % (
